@@ -252,7 +252,7 @@ def entrypoints(ti: int, entry: int, strict: bool, ni: int) -> bool:
         name = NAMES[ni]
         uses_name = entry == 3
         exp_ssc = _expect_ssc(text, name if uses_name else None)
-        ref_text = clean if (stray and not strict) else text
+        ref_text = clean if stray else text   # the reference is always built from the stray-free text
         try:
             ref = (SSCSimfile if exp_ssc else SMSimfile)(string=ref_text, strict=True)
         except ValueError:
